@@ -85,6 +85,8 @@ impl FragmentTree {
     fn second_pass_enclose(fragment_trees: Vec<Self>) -> Vec<Self> {
         let mut new_trees: Vec<Self> = vec![];
         for frag_tree in fragment_trees {
+            #[cfg(feature = "verif")]
+            crate::verif::point("tree:enclose");
             let is_enclosed = new_trees
                 .iter_mut()
                 .rev()
@@ -98,6 +100,8 @@ impl FragmentTree {
 
     /// convert back into fragments
     fn into_nodes<MSG>(self) -> Vec<Node<MSG>> {
+        #[cfg(feature = "verif")]
+        crate::verif::point("tree:node");
         let mut nodes = vec![];
         let mut fragment_node: Node<MSG> = self.fragment.fragment.into();
         let _css_tag_len = self.css_tag.len();
